@@ -34,10 +34,16 @@ type c12Scen struct {
 	NSeg    int    `json:"nseg"`
 	Policy  int    `json:"policy"`        // canonical schedule: 0 run until blocked then ascending ids, 1 round robin, 2 run until blocked then descending ids
 	Res     string `json:"res,omitempty"` // if set, the fault hits the first request for this resource instead of request number At
+	// CloseInCB: the k-th user callback invocation (1-based) calls Close itself, on the client's own goroutine
+	CloseInCB int `json:"close_in_cb,omitempty"`
 }
 
 func (s c12Scen) name() string {
-	return fmt.Sprintf("C12 %s fault=%s@%d%s closers=%d bound=%d nseg=%d policy=%d", s.Stream, s.Fault, s.At, s.Res, s.Closers, s.Bound, s.NSeg, s.Policy)
+	cb := ""
+	if s.CloseInCB != 0 {
+		cb = fmt.Sprintf(" close-in-callback=%d", s.CloseInCB)
+	}
+	return fmt.Sprintf("C12 %s fault=%s@%d%s closers=%d%s bound=%d nseg=%d policy=%d", s.Stream, s.Fault, s.At, s.Res, s.Closers, cb, s.Bound, s.NSeg, s.Policy)
 }
 
 // vstallBody is the scheduler-aware version of a body that never arrives.
@@ -190,6 +196,14 @@ func c12Harness(sc c12Scen) vsched.Harness {
 				st.callbacks++
 				if st.waitGot {
 					st.afterEnd++
+				}
+				if sc.CloseInCB != 0 && st.callbacks == sc.CloseInCB {
+					// the user closes the client from inside a callback
+					if !st.waitGot {
+						st.closedBeforeEnd = true
+					}
+					st.closeCalls++
+					c.Close()
 				}
 			}
 			c = &Client{
@@ -419,6 +433,20 @@ func c12Scens(tier string) []c12Scen {
 						out = append(out, c12Scen{Stream: stream, Fault: fault, At: at, Closers: 2, Bound: b2, NSeg: nseg, Policy: policy})
 					}
 				}
+			}
+		}
+	}
+	// Close called by the user from inside the k-th callback (before the first response, while tracks are negotiated,
+	// while samples are delivered, ...): the callbacks run on the client's own goroutines
+	for _, stream := range []string{"fmp4-va", "fmp4-v+a", "ts-va", "ll"} {
+		ncb := 24
+		if tier == "thorough" {
+			ncb = 60
+		}
+		for k := 1; k <= ncb; k++ {
+			out = append(out, c12Scen{Stream: stream, Fault: "none", Closers: 0, CloseInCB: k, Bound: bound, NSeg: 2, Policy: 0})
+			if k%4 == 1 {
+				out = append(out, c12Scen{Stream: stream, Fault: "none", Closers: 1, CloseInCB: k, Bound: bound, NSeg: 2, Policy: 0})
 			}
 		}
 	}
